@@ -2594,7 +2594,10 @@ pub fn c19(tier: &str) -> Vec<Family> {
     let b = NodeSpec::new("B", 2).script(2, vec![Op::ReadTime]);
     let c = NodeSpec::new("C", 1);
     let d = NodeSpec::new("D", 1).parent(2);
-    benches.push(("nested_simulation", Arc::new(BenchSpec::new(vec![a, b, c, d])), vec![pe(1, 2, 0), pe(0, 1, 0), pe(0, 3, 0)]));
+    benches.push(("nested_simulation", Arc::new(BenchSpec::new(vec![a.clone(), b.clone(), c.clone(), d.clone()])), vec![pe(1, 2, 0), pe(0, 1, 0), pe(0, 3, 0)]));
+    // ... and a handler that builds an inner bench and drops it without ever initialising it.
+    let a2 = a.clone().script(5, vec![Op::NestedUninit(1)]).script(6, vec![Op::NestedUninit(3), sendp(0, 2, 2)]);
+    benches.push(("nested_uninitialised", Arc::new(BenchSpec::new(vec![a2, b, c, d])), vec![pe(0, 5, 0), pe(1, 2, 0), pe(0, 6, 0)]));
     // A same-time, same-origin batch whose first action fails (source connected to a dropped
     // mailbox): the later actions of the batch and their arguments are released all the same.
     {
